@@ -16,6 +16,15 @@ OBLIGATIONS = [
     Ob(name='C08.O4.next_duplicate', harness=T, entry='h_next_dup', mode='legacy', loop_contracts=True, rules=('lfht_tags', 'lfht_trav'), defines=D, checks=CK,
        need_loop_assertions=2, min_covers=3, timeout=600, functions=('cds_lfht_next_duplicate',),
        desc='cds_lfht_next_duplicate: next live node of the equal-hash run that matches the key; none skipped; NULL iff none; terminates'),
+    Ob(name='C08.O5.add_plain', harness='C08/add.c', entry='h_add_plain', mode='legacy', loop_contracts=True, rules=('lfht_tags', 'lfht_mut'), defines=D, checks=CK,
+       replace=('check_resize',), unwind=1, need_loop_assertions=2, min_covers=3, timeout=1200, functions=('_cds_lfht_add',),
+       desc='_cds_lfht_add (duplicates allowed) on a chain of any length: inserted after the last node with reverse hash <= its own, predecessor keeps its BUCKET bit, one store, frame, sortedness; single pass (no retry)'),
+    Ob(name='C08.O5.add_bucket', harness='C08/add.c', entry='h_add_bucket', mode='legacy', loop_contracts=True, rules=('lfht_tags', 'lfht_mut'), defines=D, checks=CK,
+       replace=('check_resize',), unwind=1, need_loop_assertions=2, min_covers=2, timeout=1200, functions=('_cds_lfht_add',),
+       desc='_cds_lfht_add with bucket_flag (table growth): the new bucket node is linked BEFORE every node of equal reverse hash, carries BUCKET in its own next word'),
+    Ob(name='C06.O1.add_unique', harness='C08/add.c', entry='h_add_unique', mode='legacy', loop_contracts=True, rules=('lfht_tags', 'lfht_mut'), defines=D, checks=CK,
+       replace=('check_resize', 'cds_lfht_next_duplicate'), unwind=1, need_loop_assertions=2, min_covers=2, timeout=1200, functions=('_cds_lfht_add',),
+       desc='_cds_lfht_add with unique_ret: returns the FIRST live duplicate and writes nothing, else inserts at the head of the equal-hash run'),
 ]
 META = {
     'level': 'proof',
